@@ -659,7 +659,55 @@ def extension_chain_bounded(sess: Session):
                      'lexicon-owned column', cases, 'native execution', not problems)
 
 
+def init_db_bounded(sess: Session):
+    """connect() on a new database file: what _init_db writes (schema, the two ILI statuses every later insert of an
+    ILI looks up) is committed when connect() returns - no transaction is left open that a later rollback (a failed
+    first add) would take with it - and a second connect() to the existing file leaves none open either."""
+    import shutil
+    import sqlite3
+    import tempfile
+    import wn
+    from wn import _db as wndb
+    old = wn.config.data_directory
+    tmp = tempfile.mkdtemp(prefix='wnverif_init_')
+    bad = []
+    try:
+        wn.config.data_directory = tmp
+        conn = wndb.connect()
+        if conn.in_transaction:
+            bad.append('connect() returns the new database with a transaction open')
+        other = sqlite3.connect(str(wn.config.database_path))
+        try:
+            rows = [r[0] for r in other.execute('SELECT status FROM ili_statuses ORDER BY rowid')]
+        finally:
+            other.close()
+        if rows != ['presupposed', 'proposed']:
+            bad.append(f'a second connection sees ili_statuses = {rows} (expected the two committed rows)')
+        conn.rollback()
+        rows2 = [r[0] for r in conn.execute('SELECT status FROM ili_statuses ORDER BY rowid')]
+        if rows2 != ['presupposed', 'proposed']:
+            bad.append(f'after a rollback on the fresh connection ili_statuses = {rows2}')
+        for c in list(wndb.pool.values()):
+            c.close()
+        wndb.pool.clear()
+        conn2 = wndb.connect()
+        if conn2.in_transaction:
+            bad.append('connect() to the existing file returns with a transaction open')
+    finally:
+        for c in list(wndb.pool.values()):
+            c.close()
+        wndb.pool.clear()
+        wn.config.data_directory = old
+        shutil.rmtree(tmp, ignore_errors=True)
+    sess.add_bounded('wn._db.connect / _init_db (initial rows committed)', 'one new database file, one re-connect', 2,
+                     'native execution, second raw sqlite3 connection', not bad)
+    if bad:
+        sess.violation_direct('wn._db._init_db:committed', '; '.join(bad), {'witness': bad}, True,
+                              functions=('wn._db._init_db', 'wn._db.connect'))
+
+
 def run(sess: Session):
+    init_db_bounded(sess)
     sess.assume('A-SQLITE', 'A-TXN', 'A-ENGINE')
     sess.trust('SQLite enforces declared foreign keys and ON DELETE actions when PRAGMA foreign_keys=ON',
                'vc/pyvc, vc/sqlvc')
